@@ -85,6 +85,11 @@ func vWConfig() *Config {
 	conf.FreeAllocationSettings.WritePriceRange = PriceRange{Min: 0, Max: 100 * x10}
 	conf.FreeAllocationSettings.ReadPoolFraction = 0.25
 	conf.Cost = map[string]int{}
+	conf.ValidatorsPerChallenge = 1
+	conf.NumValidatorsRewarded = 1
+	conf.MaxBlobberSelectForChallenge = 2
+	conf.BlockReward.Gamma.A, conf.BlockReward.Gamma.B, conf.BlockReward.Gamma.Alpha = 10, 9, 0.2
+	conf.BlockReward.Zeta.Mu, conf.BlockReward.Zeta.I, conf.BlockReward.Zeta.K = 0.2, 1, 0.9
 	return conf
 }
 
